@@ -7,7 +7,8 @@
    L is the list of (method, binding) pairs registered so far -- annotation, additional bindings,
    service-config rules and the implicit /Service/Method binding alike (decl_bindings). *)
 From Larking Require Import Base.GoSem Model.Lexer Model.Trie Model.Match Spec.Grammar Spec.Route
-  Proofs.LexerProofs Proofs.MatchProofs Proofs.TrieProofs Proofs.RoutingProofs Proofs.SpellProofs.
+  Spec.Template
+  Proofs.LexerProofs Proofs.MatchProofs Proofs.TrieProofs Proofs.RoutingProofs Proofs.SpellProofs Proofs.TemplateInstProofs.
 Local Open Scope N_scope.
 
 (* every trie that any history of registerService calls publishes satisfies the registration
@@ -58,6 +59,24 @@ Theorem C01_path_is_instance :
     fill es (rev caps) = Some (normalise p).
 Proof. exact path_is_instance. Qed.
 Print Assumptions C01_path_is_instance.
+
+(* the token-level covering and the string-level reading of "the path is an instance of the
+   template" (Spec/Template.v: split the path at "/", line the pieces up with the segments) are the
+   same relation, with the same captures: for a registered binding whose template the string-level
+   reader parses to t, and a request path the path lexer accepts, the compiled edges cover the path's
+   tokens iff the path is an instance of t, and the named captures coincide (unnamed * / ** segments
+   have a capture in larking and none in the string-level reading: the filter) *)
+Theorem C01_covering_is_instance : forall isLetter isNumber resolves, Sane isLetter isNumber ->
+  forall mid b es vfs t p ptoks,
+  compiled isLetter isNumber resolves mid b es vfs ->
+  parse_tmpl isLetter isNumber (b_tmpl b) = Some t ->
+  lex_path isLetter isNumber (normalise p) = Ok ptoks ->
+  (forall cs, inst isLetter isNumber true t p = Some cs ->
+     exists caps, MatchEdges es ptoks caps /\ cs = filter (fun fc => negb (is_nil (fst fc))) (combine vfs (rev caps))) /\
+  (forall caps, MatchEdges es ptoks caps ->
+     exists cs, inst isLetter isNumber true t p = Some cs /\ cs = filter (fun fc => negb (is_nil (fst fc))) (combine vfs (rev caps))).
+Proof. exact inst_iff_cover. Qed.
+Print Assumptions C01_covering_is_instance.
 
 (* a variable's capture is determined by its pattern and the tokens: variable.index returns exactly
    the covering the specification describes, or reports that there is none *)
